@@ -106,3 +106,20 @@ def wrap(w, e):
     out = np.array([w, e])
     out[:2] = w, e
     return out
+
+
+def nested_windows_wrong(sizes, values):
+    order = np.argsort(sizes)[::-1]
+    nested = []
+    for size in (sizes[i] for i in order):
+        nested.append(values[:size])
+    return [nested[i] for i in order]
+
+
+def nested_windows_right(sizes, values):
+    order = np.argsort(sizes)[::-1]
+    nested = []
+    for size in (sizes[i] for i in order):
+        nested.append(values[:size])
+    inverse = np.argsort(order)
+    return [nested[i] for i in inverse]
